@@ -84,7 +84,12 @@ func c10Consume(d *rules.DNSRewrite) (s string) {
 
 func checkC10(c c10Case, rec *Rec) *Violation {
 	const id = "C10"
-	// a value is one modifier value: an unescaped comma would start the next modifier
+	// a value is one modifier value: an unescaped comma would start the next
+	// modifier and a dollar sign would be taken for the options delimiter
+	if strings.ContainsAny(c.Value, ",$\n\r") || strings.HasSuffix(c.Value, "\\") {
+		rec.Label("skipped:not-a-single-modifier-value")
+		return nil
+	}
 	txt := "||h^$dnsrewrite=" + c.Value
 	r1, err1 := rules.NewNetworkRule(txt, 1)
 	r2, err2 := rules.NewNetworkRule(txt, 1)
@@ -125,7 +130,7 @@ var c10RCodes = []string{"NOERROR", "noerror", "NXDOMAIN", "SERVFAIL", "REFUSED"
 var c10Types = []string{"A", "AAAA", "CNAME", "MX", "PTR", "TXT", "HTTPS", "SVCB", "SRV", "NS", "SOA", "a", "aaaa", "NONE", "RESERVED", "ANY", "", "TYPE65", "X", "mx", "srv", "https", "Ptr", "OPT", "CAA", "none"}
 var c10Vals = []string{"", "1.2.3.4", "::1", "::ffff:1.2.3.4", "[::1]", "1.2.3", "256.1.1.1", "host.example", "host.example.", ".", "..", "-a.b", "a_b.c",
 	"10 mail.x", "10  mail.x", "65536 mail.x", "65535 mail.x", "-1 mail.x", "10 .", "10", "0 m.x", "1e20 m.x", "1 2 3 t.x", "1 2 3 .", "1 2 65536 t.x", "65535 65535 65535 t.x",
-	"1 2 3", "1 2 3 t.x extra", "1 .", "1 . alpn=h3", "1 . alpn", "1 . a=b=c", "1 t.x ipv4hint=1.2.3.4 port=8443", "99999 .", "hello world", "a;b", "a\\,b",
+	"1 2 3", "1 2 3 t.x extra", "1 .", "1 . alpn=h3", "1 . alpn", "1 . a=b=c", "1 t.x ipv4hint=1.2.3.4 port=8443", "99999 .", "hello world", "a;b",
 	strings.Repeat("a", 64), strings.Repeat("a", 63), "xn--e1afmkfd.xn--p1ai", "0.0.0.0", "::", "1.2.3.4.", " 1.2.3.4", "fe80::1%eth0", "a..b", "a.b..", "1", "00 m.x", "+1 m.x"}
 var c10Shorts = []string{"NOERROR", "NXDOMAIN", "SERVFAIL", "REFUSED", "FORMERR", "A", "ABC", "abc", "Abc", "1.2.3.4", "::", "1.2.3.4.5", "example.org", "example.org.",
 	"EXAMPLE", "exa mple", "a;b", ";", ";;", ";;;", "NOERROR;A", "NOERROR;;", "", "::ffff:1.2.3.4", "[::1]", "fe80::1%eth0", "a-.b", "-", "1", "dead.beef", "1.2.3.256", "::g"}
@@ -161,7 +166,7 @@ func genC10(t *rapid.T) c10Case {
 		return c10Case{Value: "NOERROR;" + ty + ";" + h}
 	case 4:
 		// free printable value with the right field count
-		v := rapid.StringMatching(`[ -+\--~]{0,24}`).Draw(t, "free") // printable ASCII without comma
+		v := rapid.StringMatching(`[ -#%-+\--~]{0,24}`).Draw(t, "free") // printable ASCII without comma and dollar
 		return c10Case{Value: pick(t, "rc", c10RCodes) + ";" + pick(t, "ty", c10Types) + ";" + v}
 	}
 	return c10Case{Value: pick(t, "rcode", c10RCodes) + ";" + pick(t, "type", c10Types) + ";" + pick(t, "val", c10Vals)}
